@@ -548,76 +548,79 @@ def run(repo, chk):
     chk.floor("R-C03-1", 5 + 9 + 9 + 8 + 1 + 2)
 
     # ---------------------------------------------------------------- R-C03-3 status mapping
-    for (rule, construct), (ok, ln, detail, expected, found) in facts.items():
-        if rule == "R-C03-3":
-            chk.expect(ok, rule, construct, here(ln), detail, expected=expected, found=found)
-    init = repo.func(EIO, "BinFile.__init__")
-    d = {a.arg: const(dv) for a, dv in zip(init.args.args[-len(init.args.defaults):], init.args.defaults)}
-    chk.expect(d.get("convert_status") is True, "R-C03-3", "status conversion is on by default", loc(init), found=d.get("convert_status"))
-    chk.floor("R-C03-3", 9)
+    with chk.part("R-C03-3 status mapping"):
+        for (rule, construct), (ok, ln, detail, expected, found) in facts.items():
+            if rule == "R-C03-3":
+                chk.expect(ok, rule, construct, here(ln), detail, expected=expected, found=found)
+        init = repo.func(EIO, "BinFile.__init__")
+        d = {a.arg: const(dv) for a, dv in zip(init.args.args[-len(init.args.defaults):], init.args.defaults)}
+        chk.expect(d.get("convert_status") is True, "R-C03-3", "status conversion is on by default", loc(init), found=d.get("convert_status"))
+        chk.floor("R-C03-3", 9)
     # ---------------------------------------------------------------- R-C03-2 same file, same units
-    rs = repo.func(ESIM, "EpanetSimulator.run_sim")
-    chk.fn(rs)
-    # the calls are read off the symbolic execution of run_sim (arguments with locals resolved to what they were computed from); order is decided on the CFG
-    from ..symx import SymExec as _SX, Opaque as _Op
-    from ..cfg import CFG as _CFG
-    exs = _SX()
-    paths = [o for o in exs.run(rs, {"self": _Op("self")}) if o.raised is None]
+    with chk.part("R-C03-2 same file, same units"):
+        rs = repo.func(ESIM, "EpanetSimulator.run_sim")
+        chk.fn(rs)
+        # the calls are read off the symbolic execution of run_sim (arguments with locals resolved to what they were computed from); order is decided on the CFG
+        from ..symx import SymExec as _SX, Opaque as _Op
+        from ..cfg import CFG as _CFG
+        exs = _SX()
+        paths = [o for o in exs.run(rs, {"self": _Op("self")}) if o.raised is None]
 
-    def ev_calls(o, suffix):
-        return [e for e in o.events if e[0] == "call" and (e[2][0] == suffix or e[2][0].endswith("." + suffix))]
-    n_paths = 0
-    sig = [a.arg for a in rd.args.args]
-    for o in paths:
-        wi, op, rr = ev_calls(o, "write_inpfile"), ev_calls(o, "ENopen"), [e for e in ev_calls(o, "read") if "reader" in e[2][0]]
-        if not rr:
-            continue
-        n_paths += 1
-        if not (wi and op):
-            chk.bad("R-C03-2", "every path that reads results wrote the INP file and opened EPANET on it", loc(rs), found=o.label()[-160:])
-            continue
-        wargs, wkw = wi[0][2][1], wi[0][2][2]
-        oargs, rargs, rkw = op[0][2][1], rr[-1][2][1], rr[-1][2][2]
-        txt = lambda v: exs.text(v)
-        chk.expect(len(wargs) >= 2 and txt(wargs[0]) == "self._wn" and txt(wkw.get("units")) == "self._wn.options.hydraulic.inpfile_units", "R-C03-2",
-                   "the INP file is written from the simulator's model in options.hydraulic.inpfile_units", loc(rs), found=wi[0][1][:160])
-        chk.expect(len(oargs) >= 3 and len(wargs) >= 2 and exs.same(oargs[0], wargs[1]), "R-C03-2", "EPANET is opened on the file that was just written", loc(rs), found=op[0][1][:160])
-        chk.expect(bool(rargs) and len(oargs) >= 3 and exs.same(rargs[0], oargs[2]), "R-C03-2", "the binary file read back is the output file of this run", loc(rs), found=rr[-1][1][:160])
-        bound = dict(zip(sig[1:], rargs))
-        bound.update(rkw)
-        dw = txt(bound["darcy_weisbach"]) if "darcy_weisbach" in bound else None
-        chk.expect(dw is not None and "options.hydraulic.headloss" in dw and "D-W" in dw, "R-C03-2", "the Darcy-Weisbach flag passed to the reader comes from options.hydraulic.headloss", loc(rs), found=dw)
-        break
-    if not n_paths:
-        raise ExtractError("EpanetSimulator.run_sim: no path calls reader.read")
-    chk.expect("darcy_weisbach" in sig and "convergence_error" in sig and sig[1] == "filename", "R-C03-2", "BinFile.read takes (filename, convergence_error, darcy_weisbach, ...)", loc(rd), found=sig)
-    g = _CFG(rs)
-    wn_, on_, rn_ = g.calling("write_inpfile"), g.calling("ENopen"), [n_ for n_ in g.calling("read") if "reader" in unparse(g.node_ast(n_))]
-    sn_, cn_ = g.calling("ENsolveH") + g.calling("ENusehydfile"), g.calling("ENclose")
-    if not (wn_ and on_ and rn_ and sn_ and cn_):
-        raise ExtractError("EpanetSimulator.run_sim: write_inpfile / ENopen / ENsolveH / ENclose / reader.read not found")
-    idom = g.dominators()
-    order_ok = g.dominates(wn_[0], on_[0], idom) and g.dominates(on_[0], rn_[0], idom) and g.dominates(cn_[0], rn_[0], idom) \
-        and g.must_pass(on_[0], set(cn_), set(sn_))[0]
-    chk.expect(order_ok, "R-C03-2", "order: write INP, open, solve, close, read results", loc(rs),
-               "CFG: the write dominates the open, the open and the close dominate the read, every path from the open to the close passes a hydraulic solve (or loads a hydraulics file)")
-    # the clock the two engines share: START CLOCKTIME written into the INP must read back (by EPANET's 12-hour convention, which
-    # _clock_time_to_sec implements) as options.time.start_clocktime, or clock-time controls fire 12 h apart in the two simulators
-    from ._shared import clocktime_round_trip
-    rows, wtf, rdf = clocktime_round_trip(repo)
-    chk.fn(wtf, rdf)
-    badrows = [(t, txt, back) for t, txt, back in rows if back != t]
-    for half, hours in (("AM", range(0, 12)), ("PM", range(12, 24))):
-        hb = [b for b in badrows if b[0] // 3600 in hours]
-        chk.expect(not hb, "R-C03-2", "start_clocktime in the %s half of the day reaches EPANET unchanged through the INP file" % half, loc(wtf),
-                   "WNTRSimulator uses options.time.start_clocktime directly, EpanetSimulator what the INP says", found=("%r reads back as %s s (written for %d s)" % (hb[0][1], hb[0][2], hb[0][0])) if hb else None)
-    chk.floor("R-C03-2", 8)
+        def ev_calls(o, suffix):
+            return [e for e in o.events if e[0] == "call" and (e[2][0] == suffix or e[2][0].endswith("." + suffix))]
+        n_paths = 0
+        sig = [a.arg for a in rd.args.args]
+        for o in paths:
+            wi, op, rr = ev_calls(o, "write_inpfile"), ev_calls(o, "ENopen"), [e for e in ev_calls(o, "read") if "reader" in e[2][0]]
+            if not rr:
+                continue
+            n_paths += 1
+            if not (wi and op):
+                chk.bad("R-C03-2", "every path that reads results wrote the INP file and opened EPANET on it", loc(rs), found=o.label()[-160:])
+                continue
+            wargs, wkw = wi[0][2][1], wi[0][2][2]
+            oargs, rargs, rkw = op[0][2][1], rr[-1][2][1], rr[-1][2][2]
+            txt = lambda v: exs.text(v)
+            chk.expect(len(wargs) >= 2 and txt(wargs[0]) == "self._wn" and txt(wkw.get("units")) == "self._wn.options.hydraulic.inpfile_units", "R-C03-2",
+                       "the INP file is written from the simulator's model in options.hydraulic.inpfile_units", loc(rs), found=wi[0][1][:160])
+            chk.expect(len(oargs) >= 3 and len(wargs) >= 2 and exs.same(oargs[0], wargs[1]), "R-C03-2", "EPANET is opened on the file that was just written", loc(rs), found=op[0][1][:160])
+            chk.expect(bool(rargs) and len(oargs) >= 3 and exs.same(rargs[0], oargs[2]), "R-C03-2", "the binary file read back is the output file of this run", loc(rs), found=rr[-1][1][:160])
+            bound = dict(zip(sig[1:], rargs))
+            bound.update(rkw)
+            dw = txt(bound["darcy_weisbach"]) if "darcy_weisbach" in bound else None
+            chk.expect(dw is not None and "options.hydraulic.headloss" in dw and "D-W" in dw, "R-C03-2", "the Darcy-Weisbach flag passed to the reader comes from options.hydraulic.headloss", loc(rs), found=dw)
+            break
+        if not n_paths:
+            raise ExtractError("EpanetSimulator.run_sim: no path calls reader.read")
+        chk.expect("darcy_weisbach" in sig and "convergence_error" in sig and sig[1] == "filename", "R-C03-2", "BinFile.read takes (filename, convergence_error, darcy_weisbach, ...)", loc(rd), found=sig)
+        g = _CFG(rs)
+        wn_, on_, rn_ = g.calling("write_inpfile"), g.calling("ENopen"), [n_ for n_ in g.calling("read") if "reader" in unparse(g.node_ast(n_))]
+        sn_, cn_ = g.calling("ENsolveH") + g.calling("ENusehydfile"), g.calling("ENclose")
+        if not (wn_ and on_ and rn_ and sn_ and cn_):
+            raise ExtractError("EpanetSimulator.run_sim: write_inpfile / ENopen / ENsolveH / ENclose / reader.read not found")
+        idom = g.dominators()
+        order_ok = g.dominates(wn_[0], on_[0], idom) and g.dominates(on_[0], rn_[0], idom) and g.dominates(cn_[0], rn_[0], idom) \
+            and g.must_pass(on_[0], set(cn_), set(sn_))[0]
+        chk.expect(order_ok, "R-C03-2", "order: write INP, open, solve, close, read results", loc(rs),
+                   "CFG: the write dominates the open, the open and the close dominate the read, every path from the open to the close passes a hydraulic solve (or loads a hydraulics file)")
+        # the clock the two engines share: START CLOCKTIME written into the INP must read back (by EPANET's 12-hour convention, which
+        # _clock_time_to_sec implements) as options.time.start_clocktime, or clock-time controls fire 12 h apart in the two simulators
+        from ._shared import clocktime_round_trip
+        rows, wtf, rdf = clocktime_round_trip(repo)
+        chk.fn(wtf, rdf)
+        badrows = [(t, txt, back) for t, txt, back in rows if back != t]
+        for half, hours in (("AM", range(0, 12)), ("PM", range(12, 24))):
+            hb = [b for b in badrows if b[0] // 3600 in hours]
+            chk.expect(not hb, "R-C03-2", "start_clocktime in the %s half of the day reaches EPANET unchanged through the INP file" % half, loc(wtf),
+                       "WNTRSimulator uses options.time.start_clocktime directly, EpanetSimulator what the INP says", found=("%r reads back as %s s (written for %d s)" % (hb[0][1], hb[0][2], hb[0][0])) if hb else None)
+        chk.floor("R-C03-2", 8)
 
     # ---------------------------------------------------------------- R-C03-4 a rule's setting / speed action and the status that goes with it act on the same branch
-    # (EPANET applies setting and status together, on the branch that carries the action; WNTRSimulator adds a companion status control for it)
-    from .c05 import companion_rules
-    companion_rules(repo, chk, rule="R-C03-4", branch_rule="R-C03-4")
-    chk.floor("R-C03-4", 9)
+    with chk.part("R-C03-4 a rule's setting / speed action and the status that goes with it act on the same b"):
+        # (EPANET applies setting and status together, on the branch that carries the action; WNTRSimulator adds a companion status control for it)
+        from .c05 import companion_rules
+        companion_rules(repo, chk, rule="R-C03-4", branch_rule="R-C03-4")
+        chk.floor("R-C03-4", 9)
 
 
 WITNESSES = [
